@@ -32,7 +32,7 @@ inductive Kind (c c' : Cfg) (tid : Queue.Tid) (t t' : Thread) : Prop where
       (henq : c'.sh.enqThread = c.sh.enqThread) (hlen : c'.sh.qs.length = c.sh.qs.length + 1)
       (hfresh : c'.sh.qs[c.sh.qs.length]? = some (freshQueue c.sh.prefetch))
       (hg : t'.g = c.sh.qs.length) (h1 : t.pc ≠ .iiSpawn) (h2 : t'.pc = .iiSpawn)
-      (hprog : ∀ e a, t.prog ≠ .initFail e a)
+      (hprog : (gen? t.prog).isSome = true)
   /-- `_init_iterator` starts the prefetch thread of the queue it installed -/
   | spawn (p : Thread) (hths : c'.ths = c.ths.set tid t' ++ [p]) (hgen : c'.sh.generator = c.sh.generator)
       (henq : c'.sh.enqThread = some c.ths.length) (hlen : c'.sh.qs.length = c.sh.qs.length)
@@ -52,7 +52,7 @@ structure LockEff (c c' : Cfg) (tid : Queue.Tid) (t t' : Thread) : Prop where
 macro "eff_plain" : tactic => `(tactic|
   (refine ⟨_, Kind.plain rfl rfl rfl ?_ ?_ ?_ ?_, ⟨?_, ?_, ?_, ?_, ?_⟩⟩ <;> (simp [holdsGen, setTh, *]; done)))
 macro "eff_install" : tactic => `(tactic|
-  (refine ⟨_, Kind.install rfl rfl rfl ?_ ?_ ?_ ?_ rfl ?_, ⟨?_, ?_, ?_, ?_, ?_⟩⟩ <;> (simp [holdsGen, setTh, *]; done)))
+  (refine ⟨_, Kind.install rfl rfl rfl ?_ ?_ ?_ ?_ rfl ?_, ⟨?_, ?_, ?_, ?_, ?_⟩⟩ <;> (simp [holdsGen, setTh, gen?, *]; done)))
 set_option hygiene false in
 macro "eff_split" : tactic => `(tactic|
   ((repeat' split at h) <;> (try (simp at *; done)) <;>
@@ -184,7 +184,7 @@ structure IInv (c : Cfg) : Prop where
   /-- the request between `install` and the start of the prefetch thread installed the current generator,
   and it is a healthy `init_generator` -/
   spawnG : ∀ (tid : Queue.Tid) (t : Thread), c.ths[tid]? = some t → t.pc = .iiSpawn →
-    c.sh.generator = some t.g ∧ ∀ e a, t.prog ≠ .initFail e a
+    c.sh.generator = some t.g ∧ (gen? t.prog).isSome = true
   /-- **every installed queue has its prefetch thread** (recorded in `_enqueue_thread`), or the installing
   request still holds the generator lock and is about to start it -/
   gen : ∀ (k : Nat), c.sh.generator = some k →
@@ -199,6 +199,9 @@ structure IInv (c : Cfg) : Prop where
   genLt : ∀ (k : Nat), c.sh.generator = some k → k < c.sh.qs.length
 
 theorem holdsGen_iiSpawn : holdsGen .iiSpawn = true := rfl
+
+theorem not_fail_of_gen {pr : Prog} (h : (gen? pr).isSome = true) : ∀ e a, pr ≠ .initFail e a := by
+  intro e a hp; rw [hp] at h; cases h
 
 theorem iinv_init (p : Nat) (progs : List Prog) (hreq : Requests progs) : IInv (init p progs) := by
   have hstart : ∀ (tid : Queue.Tid) (t : Thread), (init p progs).ths[tid]? = some t → t.pc = .start ∧ ∀ k, t.prog ≠ .producer k := by
@@ -310,7 +313,7 @@ theorem iinv_step {c c' : Cfg} {tid : Queue.Tid} {lbl : String} (hI : IInv c)
     refine ⟨hlock, howner, ?_, ?_, ?_, ?_, ?_⟩
     · intro j u hu hpc
       rcases hK.get_inv ht hu with ⟨rfl, rfl⟩ | ⟨hj, hu0⟩ | ⟨-, -, -, h3, -⟩
-      · exact ⟨hgen, by intro e a; rw [hl.prog]; exact hprog e a⟩
+      · exact ⟨hgen, by rw [hl.prog]; exact hprog⟩
       · exact absurd hpc (hnone j u hj hu0)
       · exact absurd h3 h1
     · intro k hgk
